@@ -23,6 +23,8 @@ CONTROL = [
     {"text": "IF A<2 THEN IF A=1 THEN B=1 ELSE B=2", "last": True, "grp": 2},
     {"text": "IF A=3 THEN FOR K=1 TO 2:C=C+K:NEXT K", "last": True, "grp": 2},
     {"text": "IF INT(A)=1 THEN PRINT \"Y\"", "last": True, "grp": 2},
+    {"text": "IF A=>1 THEN B=1 ELSE IF A=<2 THEN B=2 ELSE IF A<>3 THEN B=3", "last": True, "grp": 2},
+    {"text": "IF A$=>\"M\" THEN 900", "last": True, "grp": 1},
     {"text": "FOR I=1 TO 2", "open": [I], "grp": 3}, {"text": "FOR I=A TO B+2 STEP 2", "open": [I], "grp": 3},
     {"text": "FOR J=2 TO 1 STEP -1", "open": [J], "grp": 3},
     {"text": "FOR I=INT(A) TO INT(B)*2 STEP INT(C)", "open": [I], "grp": 3},
@@ -40,7 +42,8 @@ PLAIN = [
     "Z$=LEFT$(A$,2)+RIGHT$(A$,1)+MID$(A$,2,1)", "Z=INSTR(1,A$,\"I\")", "Z$=STRING$(3,\"*\")", "Z$=INKEY$",
     "Z=BUTTON(0)", "Z=JOYSTK(1)", "Z=POINT(1,2)", "Z=VARPTR(A)", "Z=ERNO",
     "PRINT", "PRINT A", "PRINT A;B$", "PRINT \"A=\";A,B", "PRINT A;", "PRINT ,A", "?A", "PRINT TAB(5);A$", "PRINT A$\"X\"B$",
-    "PRINT @32,\"HI\";A", "PRINT @A+1", "PRINT @0,",
+    "PRINT @32,\"HI\";A", "PRINT @A+1", "PRINT @0,", "PRINT -A\"DEG\"", "PRINT NOT A B$", "PRINT +A\"X\"-B", "PRINT (A)\"X\"C(1)\"Y\"", "PRINT \"X\"-A;-B",
+    "PRINT @5,-A\"Z\"", "Z=A=>B", "Z=A=<B", "Z=(A<=B)+(A>=B)+(A<>B)",
     "INPUT A", "INPUT \"N\";A,B$", "LINE INPUT A$", "LINE INPUT \"L\";B$", "INPUT C(1)",
     "READ A", "READ B$,C(1)", "RESTORE", "DATA 1,2,HELLO", "DATA \"A,B\",X Y,-3,1.5", "DATA &HFF,7", "DATA ,", "DATA A:B=1",
     "DIM E(5)", "DIM F(2,3),G$(4)", "DIM H(1,2,3)", "DIM Q$,R", "DIM S(&HA)",
@@ -82,7 +85,7 @@ EDGE = [
     ["10 PRINT \"A:B\":REM X\"Y"], ["10 IF A THEN IF B THEN IF C THEN D=1 ELSE D=2 ELSE D=3"],
     ["10 FOR I=1 TO 2:FOR J=1 TO 2:NEXT:NEXT"], ["10 ON ERR GOTO 30:ON BRK GOTO 30", "30 END"],
     ["10 A=1:::B=2", "20 :C=3"], ["10 DATA", "20 READ A$"], ["10 PRINT A B"], ["10 HPRINT(1,2),A+1"],
-    ["10 IF A=1 THEN 30 ELSE 30", "30 'X"], ["10 FOR I=1 TO 3:IF I=2 THEN NEXT I"],
+    ["10 IF A=1 THEN 30 ELSE 30", "30 'X"], ["10 DATA INCH,A\"B,C", "20 READ A$,B$,C$"], ["10 DATA \"ABC", "20 READ A$"], ["10 DATA DON'T,STOP", "20 READ A$,B$"], ["10 FOR I=1 TO 3:IF I=2 THEN NEXT I"],
 ]
 OPTION_BITS = ["filter_unused_linenum", "initialize_vars", "default_width32", "output_dependencies", "add_standard_prefix", "add_suffix"]
 
